@@ -485,8 +485,11 @@ META = {
     "text": "Machine-checked theorems (coq/Props/C19.v) about a Gallina model of the simple-column format "
             "(header, column-major body, percent escape of name lines, deterministic sort orders, bufio line scanning, "
             "the skip arithmetic of the lazy store, the filter/skip logic of readPred): reading back what was written "
-            "returns exactly the written facts for every store, every lazy query returns exactly the matching facts, "
-            "and deterministic output is a function of the set. The model is tied to factstore/simplecolumn.go on every "
+            "returns exactly the written facts (same multiset) for every admissible store, every lazy query on a store that "
+            "lists no predicate twice returns exactly the matching facts (offset lemma over the header loop), "
+            "and deterministic output is a function of the set of listed predicates and the set of facts whenever the "
+            "(Atom.Hash, Atom.String) sort key is injective on the facts of each predicate (a witness shows this "
+            "hypothesis is needed). All statements are proved in full; nothing is partial. The model is tied to factstore/simplecolumn.go on every "
             "run: generated stores (all constant kinds, names with '%', zero-arity and empty predicates) x "
             "{plain, gzip, zstd} x {deterministic, not} x {order-controlled source, in-memory stores, re-saved lazy store} "
             "are written and read back by the real code; the verdict is decided on Go's output, the model is compared "
